@@ -444,8 +444,9 @@ def main():
         "wall_s": round(wall, 2),
         "violations": len(new_viol) + (1 if (broken and not new_viol) else 0),
     }
-    os.makedirs(os.path.join(VERIF, "evidence"), exist_ok=True)
-    with open(os.path.join(VERIF, "evidence", "%s.json" % pid), "w") as f:
+    evdir = os.environ.get("VERIF_EVIDENCE_DIR") or os.path.join(VERIF, "evidence")
+    os.makedirs(evdir, exist_ok=True)
+    with open(os.path.join(evdir, "%s.json" % pid), "w") as f:
         json.dump(ev, f, indent=1, default=str)
     log("[%s] %s: %d cases, %d blocks replayed on the model, %d disagreements, %d violations (%d known), %.1fs" % (
         pid, tier, evaluations, blocks, len(diffs), len(viol), len(viol) - len(new_viol), wall))
